@@ -418,6 +418,12 @@ def register(M):
                 return isinstance(v, Sc)
             if p == 'pandas.Series':
                 return isinstance(v, Vec) and v.kind == 'series'
+            if p == 'pandas.Index':
+                return isinstance(v, Vec) and v.kind in ('index', 'dtindex')
+            if p == 'pandas.DataFrame':
+                return getattr(v, 'abs_kind', None) == 'DataFrame'
+            if p in ('numbers.Number', 'numbers.Integral'):
+                return (isinstance(v, (int, Fr)) and (p == 'numbers.Number' or getattr(v, 'denominator', 1) == 1 and not isinstance(v, Fr))) or (p == 'numbers.Number' and isinstance(v, (float, Sc)))
             if p in ('pandas.DatetimeIndex',):
                 return isinstance(v, Vec) and v.kind == 'dtindex'
             if p == 'pathlib.Path':
